@@ -65,3 +65,32 @@ Fixpoint loads (e : expr) : list dotted :=
   | EOp es => (fix go (l : list expr) : list dotted := match l with [] => [] | x :: r => loads x ++ go r end) es
   | _ => []
   end.
+
+(* ---------- stage 1 for the unused side (C02): additionally every import binds a one-component key
+   (no plain `import a.b`: F16 - reads through the package name do not mark the use-checker), and no
+   `from __future__ import` (stored without a checker) ---------- *)
+Definition u1_import_item (it : dotted * option name) : bool :=
+  s1_import_item it && match snd it with Some _ => true | None => match fst it with [_] => true | _ => false end end.
+Definition not_future (m : dotted) : bool := negb (dotted_eqb m [n_future]).
+
+Fixpoint u1_stmt (x : stmt) : bool :=
+  let blk := fix blk (l : list stmt) : bool := match l with [] => true | y :: r => u1_stmt y && blk r end in
+  match x with
+  | SExpr _ e => s1_expr e
+  | SAssign _ ts v => s1_expr v && forallb s1_target ts
+  | SAugAssign _ n attrs v => is_nil attrs && not_star n && s1_expr v
+  | SImport _ items => forallb u1_import_item items
+  | SImportFrom _ m items => not_future m && forallb s1_from_item items
+  | SFor _ t it b o => s1_target t && s1_expr it && blk b && blk o
+  | SWhile _ t b o => s1_expr t && blk b && is_nil o
+  | SIf _ t b o => s1_expr t && blk b && is_nil o
+  | SWith _ items b => forallb s1_with_item items && blk b
+  | STry _ b hs o f => blk b && is_nil hs && blk o && blk f
+  | SPass _ => true
+  | SAllAssign _ _ | SDef _ _ _ _ _ _ | SClass _ _ _ _ _ _ => false
+  end.
+Definition u1_block (l : list stmt) : bool := forallb u1_stmt l.
+
+(* the import events of a binding list: (line, import) of every binding made by an import statement *)
+Definition imp_events (l : list (name * bsrc)) : list (nat * import) :=
+  flat_map (fun nb => match snd nb with BImp ln i => [(ln, i)] | BOther => [] end) l.
